@@ -85,23 +85,34 @@ def memo_obligation(pid, relpath, fname, cache, params, domain=None, seq_param=N
                 def args(vs):
                     return [[val(x) for x in v.items] if isinstance(v, VList) else val(v) for v in vs]
                 A, B = args(a), args(b)
+
+                def norm(v):
+                    # structural value of a result: nested sequences / arrays as nested lists (ragged results and tuples of lists included)
+                    if isinstance(v, numpy.ndarray):
+                        return norm(v.tolist())
+                    if isinstance(v, (list, tuple)):
+                        return [norm(x) for x in v]
+                    if isinstance(v, (float, numpy.floating)):
+                        return float('%.12g' % float(v))
+                    if isinstance(v, (int, numpy.integer)):
+                        return int(v)
+                    return repr(v)
                 c.clear()
                 try:
                     f(*A)
                 except Exception:
                     pass
                 try:
-                    second = numpy.asarray(f(*B), dtype=float)
+                    second = norm(f(*B))
                 except Exception as e:
-                    second = repr(e)
+                    second = 'raises ' + repr(e)
                 c.clear()
                 try:
-                    clean = numpy.asarray(f(*B), dtype=float)
+                    clean = norm(f(*B))
                 except Exception as e:
-                    clean = repr(e)
+                    clean = 'raises ' + repr(e)
                 c.clear()
-                same = (isinstance(second, str) and isinstance(clean, str) and second == clean) or \
-                       (not isinstance(second, str) and not isinstance(clean, str) and second.shape == clean.shape and numpy.allclose(second, clean, rtol=1e-12, atol=0, equal_nan=True))
+                same = second == clean
                 return dict(replayed=True, inputs=dict(first_call=A, second_call=B), second_call_after_first=str(second)[:200], second_call_alone=str(clean)[:200],
                             postcondition_holds_natively=bool(same))
             except Exception as e:
